@@ -210,7 +210,13 @@ def run_exec(acc: Acc):
                 else:
                     idx += 1
                     comms.send_data("inproc://L", m, msg.Syn(10_000 + idx, "inproc://S"))
-                got = listener.recv_messages(0)
+                try:
+                    got = listener.recv_messages(0)
+                except Exception as e:
+                    acc.bad("exec_framing_raised", f"{type(m).__name__} via {path}: {type(e).__name__} on a well-formed message", f"sent {m!r}: {e!r}"[:300], rp)
+                    net.queues["inproc://L"].clear()
+                    back_listener.recv_messages(0)
+                    continue
                 if len(got) != 1 or not struct_eq(got[0], m):
                     acc.bad("exec_framing_mismatch", f"{type(m).__name__} via {path}", f"sent {m!r} got {got!r}"[:300], rp)
                 acks = back_listener.recv_messages(0)
@@ -348,7 +354,69 @@ def run_jobjson(acc: Acc, maxn: int):
     acc.samples.append({"family": "jobjson", "spec": specs[-2].describe()})
 
 
-FAMILIES = {"shm": run_shm, "exec": run_exec, "report": run_report, "gateway": run_gateway}
+# ------------------------------------------------------------------ dataset values (ser_output / des_output)
+class Grid:
+    def __init__(self, v):
+        self.v = v
+
+    def __eq__(self, o):
+        return type(o) is type(self) and o.v == self.v
+
+
+class MaskedGrid(Grid):
+    pass
+
+
+def grid_ser(g) -> bytes:
+    return b"G" + str(g.v).encode()
+
+
+def grid_des(b) -> "Grid":
+    return Grid(int(bytes(b)[1:]))
+
+
+def run_output_serde(acc: Acc):
+    import numpy as np
+
+    import cascade.executor.serde as serde
+
+    saved = dict(serde.SerdeRegistry.serde)
+    try:
+        for registered in ([], [Grid], [Grid, int]):
+            serde.SerdeRegistry.serde = dict(saved)
+            for t in registered:
+                if t is Grid:
+                    serde.SerdeRegistry.register(Grid, "vf.checks.c17.grid_ser", "vf.checks.c17.grid_des")
+                else:
+                    serde.SerdeRegistry.register(int, "vf.checks.c17.int_ser", "vf.checks.c17.int_des")
+            values = [0, 7, True, "", "s", b"\x00", [1, "a"], {"k": (1, 2)}, None, np.arange(3.0), Grid(5), MaskedGrid(6), 2**70]
+            for v in values:
+                acc.n += 1
+                rp = {"family": "output-serde", "value": repr(v)[:60], "registered": [t.__name__ for t in registered]}
+                try:
+                    raw, des = serde.ser_output(v, "Any")
+                    back = serde.des_output(raw, "Any", des)
+                except Exception as e:
+                    acc.bad("output_serde_raised", f"{type(v).__name__}: {type(e).__name__}", f"{rp}: {e!r}"[:300], rp)
+                    continue
+                same = type(back) is type(v) and (np.array_equal(back, v) if isinstance(v, np.ndarray) else back == v)
+                if not same:
+                    acc.bad("output_serde_mismatch", f"value of type {type(v).__name__} comes back as {type(back).__name__}" + (" (a registered serde was applied to an unregistered subclass)" if registered else ""), f"{rp}: {back!r}", rp)
+                acc.nontrivial.add((repr(v)[:30], len(registered)))
+    finally:
+        serde.SerdeRegistry.serde = saved
+    acc.samples.append({"family": "output-serde", "value": "MaskedGrid(6) with a serde registered for its base class Grid only", "expect": "comes back as MaskedGrid (falls back to cloudpickle)"})
+
+
+def int_ser(v) -> bytes:
+    return str(int(v)).encode()
+
+
+def int_des(b) -> int:
+    return int(bytes(b))
+
+
+FAMILIES = {"shm": run_shm, "exec": run_exec, "report": run_report, "gateway": run_gateway, "output-serde": run_output_serde}
 
 
 def run(ctx):
@@ -383,6 +451,8 @@ def replay(ctx, data):
         run_report(acc)
     elif fam == "gateway":
         run_gateway(acc)
+    elif fam == "output-serde":
+        run_output_serde(acc)
     elif fam == "jobjson":
         run_jobjson(acc, 4)
     return [common.Violation(sig, m, rp) for sig, m, rp in acc.viol]
